@@ -1,6 +1,11 @@
-"""C02 - see DESIGN.md section 5/C02.  Bounded stand-in (bounded/C02.py) of the property's
-contract on the real code; labelled bounded, never counted as proved."""
+"""C02 - dependency resolution is order-independent; bad graphs are rejected.
+
+Deductive part (contracts/model_sort.py): _check_if_is_sortable proved for all graphs
+(raises iff incomplete, lists exactly the missing names, modifies nothing).  Bounded part
+(bounded/C02.py): _sort_dependencies and the model level on all graphs with <= 3/4
+components x all declaration orders."""
 from props._runner import run
 
 if __name__ == "__main__":
-    run("C02", "exploration", notes="C02: run-time contract on the real code over an enumerated small scope (bounded stand-in)")
+    run("C02", "proof", files=["model_sort.py"],
+        notes="C02: completeness check proved; sort order validity, cycle rejection, termination and cap adequacy covered by the bounded stand-in only")
